@@ -45,6 +45,10 @@ def check(ctx: Ctx) -> None:
     # version readers already saw would vanish)
     from .c04 import r1 as c04_r1
     ctx.shared(c04_r1, "C04.R1", "C02.R8", "monotonic reads across an ambiguous commit")
+    # every read starts by resolving the committed version FROM STORAGE: a remembered / cached metadata version is not "the
+    # committed current snapshot at some instant between the read's start and end" (it may never have been committed at all)
+    from .c10 import r7 as c10_r7
+    ctx.shared(c10_r7, "C10.R7", "C02.R9", "reads resolve the committed version from storage every time")
 
 
 def r6(ctx: Ctx) -> None:
